@@ -74,13 +74,18 @@ def run_probe(fee, bal, exch_type='futures', name=S.EXCHANGE, fast=False):
     T = S.make_template(side='long', entry=None, stop=95.0, take=105.0, qty=1.0, on_open_exits=(exch_type == 'spot'),
                         exit_qty_from_position=(exch_type == 'spot'), name='Probe')
     T = reading(T)
+    # the probe declares two hyperparameters and is called with a partial dict (a documented use: the rest come from the defaults)
+    T.hyperparameters = lambda self: [{'name': 'unit', 'type': int, 'min': 1, 'max': 5, 'default': 1},
+                                      {'name': 'hold', 'type': int, 'min': 1, 'max': 9, 'default': 9}]
+    hp = {'unit': 1}
+    hp_copy = copy.deepcopy(hp)
     cfg = S.config_dict(exch_type, leverage=2, mode='cross', fee=fee, balance=bal, exchange=name)
     candles = S.make_candles(probe_candles())
     routes_before = None
     cfg_copy = copy.deepcopy(cfg)
     candles_copy = candles.copy()
-    rec = S.run_session(candles, T, cfg, fresh_process_state=False, fast=fast)
-    untouched = (cfg == cfg_copy) and candles.shape == candles_copy.shape and bool(np.all(candles == candles_copy))
+    rec = S.run_session(candles, T, cfg, fresh_process_state=False, fast=fast, hyperparameters=hp)
+    untouched = (cfg == cfg_copy) and candles.shape == candles_copy.shape and bool(np.all(candles == candles_copy)) and hp == hp_copy
     return rec, untouched
 
 
